@@ -21,7 +21,7 @@ var realComponents = map[string]string{
 
 func init() {
 	sim.Register(&sim.Prop{
-		ID: "C04", Run: runC04, QuickRuns: 150000, ThoroughRuns: 1500000,
+		ID: "C04", Run: runC04, QuickRuns: 150000, ThoroughRuns: 3000000,
 		Rule:       "Each run: one bufiox reader (io.Reader-backed over a simulated Source, or bytes-backed) over a stream with position-dependent content, 1..300 operations from {Next,Peek,Skip,ReadBinary,Release,negative counts} with boundary-valued sizes, a per-run source delivery profile (chunking, zero reads, stall, terminal error kind/offset, data with error), allocator mode and co-tenant; every result is compared with a cursor-over-bytes model, then the stream is drained.",
 		Components: realComponents,
 		Probes: []string{"reader_alloc_or_growth", "release_with_unread_tail", "release_with_nothing_buffered", "request_satisfied_after_100_or_more_reads",
